@@ -113,12 +113,54 @@ struct Slot {
     obs: std::sync::atomic::AtomicU32,
 }
 
+thread_local! {
+    static DELIVERED_EVENTS: std::cell::Cell<u32> = const { std::cell::Cell::new(0) };
+    static DELIVERED_SPANS: std::cell::Cell<u32> = const { std::cell::Cell::new(0) };
+}
+/// counts what gets past `GlobalEnable` on the emitting thread
+struct Counter;
+impl<S: tracing::Subscriber> tracing_subscriber::Layer<S> for Counter {
+    fn on_event(&self, _e: &tracing::Event<'_>, _c: tracing_subscriber::layer::Context<'_, S>) {
+        DELIVERED_EVENTS.with(|c| c.set(c.get() + 1));
+    }
+    fn on_new_span(&self, _a: &tracing::span::Attributes<'_>, _i: &tracing::span::Id, _c: tracing_subscriber::layer::Context<'_, S>) {
+        DELIVERED_SPANS.with(|c| c.set(c.get() + 1));
+    }
+}
+/// when set, every observation also emits one event and one span through
+/// `registry().with(GlobalEnable).with(Counter)` (per-callsite interest cache rebuilt first) and
+/// reports whether they were delivered
+static OBSERVE_LAYER: std::sync::atomic::AtomicBool = std::sync::atomic::AtomicBool::new(false);
+
+/// 1 + (is_enabled) + 2*(event delivered) + 4*(span delivered); without the layer the last two copy the first
+fn observe() -> u32 {
+    let v = tracing_enabled::is_enabled();
+    if !OBSERVE_LAYER.load(std::sync::atomic::Ordering::Relaxed) {
+        return 1 + if v { 7 } else { 0 };
+    }
+    tracing::callsite::rebuild_interest_cache();
+    let (e0, s0) = (DELIVERED_EVENTS.with(|c| c.get()), DELIVERED_SPANS.with(|c| c.get()));
+    tracing::info!("c20 probe event");
+    {
+        let _span = tracing::info_span!("c20 probe span");
+    }
+    let ev = DELIVERED_EVENTS.with(|c| c.get()) != e0;
+    let sp = DELIVERED_SPANS.with(|c| c.get()) != s0;
+    1 + v as u32 + 2 * ev as u32 + 4 * sp as u32
+}
+
 fn worker(slot: std::sync::Arc<Slot>) {
     use std::sync::atomic::Ordering::{Acquire, Release};
+    use tracing_subscriber::layer::SubscriberExt;
+    let _guard = if OBSERVE_LAYER.load(std::sync::atomic::Ordering::Relaxed) {
+        Some(tracing::subscriber::set_default(tracing_subscriber::registry().with(tracing_enabled::GlobalEnable).with(Counter)))
+    } else {
+        None
+    };
     let mut token: Option<tracing_enabled::LocalEnableState> = None;
     let mut token2: Option<tracing_enabled::LocalEnableState> = None;
     // first report: the view of a fresh thread
-    slot.obs.store(1 + tracing_enabled::is_enabled() as u32, Release);
+    slot.obs.store(observe(), Release);
     let mut idle = 0u32;
     loop {
         let c = slot.cmd.swap(0, Acquire);
@@ -160,16 +202,24 @@ fn worker(slot: std::sync::Arc<Slot>) {
                 }
             },
         }
-        slot.obs.store(1 + tracing_enabled::is_enabled() as u32, Release);
+        slot.obs.store(observe(), Release);
     }
 }
+
+/// last observation in which is_enabled(), event delivery and span delivery disagreed (bit set)
+static LAYER_MISMATCH: std::sync::atomic::AtomicU32 = std::sync::atomic::AtomicU32::new(0);
 
 fn take_obs(slot: &Slot) -> bool {
     let mut idle = 0u32;
     loop {
         let v = slot.obs.swap(0, std::sync::atomic::Ordering::Acquire);
         if v != 0 {
-            return v == 2;
+            let bits = v - 1;
+            // the layer must let events and spans through exactly when the thread's view says so
+            if bits != 0 && bits != 7 {
+                LAYER_MISMATCH.store(bits, std::sync::atomic::Ordering::Relaxed);
+            }
+            return bits & 1 == 1;
         }
         idle += 1;
         if idle > 200 {
@@ -274,13 +324,25 @@ pub fn replay_c20(case: &Value) -> Vec<Divergence> {
         return loom_run(Tier::Quick).1;
     }
     let late = case["late"].as_bool().unwrap_or(false);
+    if case["layer"].as_bool().unwrap_or(false) {
+        OBSERVE_LAYER.store(true, std::sync::atomic::Ordering::Relaxed);
+    }
     let h: Vec<(usize, TOp)> = case["ops"]
         .as_array()
         .unwrap()
         .iter()
         .map(|x| (x[0].as_u64().unwrap() as usize, ALL_OPS.iter().copied().find(|o| format!("{o:?}") == x[1].as_str().unwrap()).unwrap()))
         .collect();
-    run_history_mode(&h, late).into_iter().collect()
+    LAYER_MISMATCH.store(0, std::sync::atomic::Ordering::Relaxed);
+    let mut out: Vec<Divergence> = run_history_mode(&h, late).into_iter().collect();
+    let mm = LAYER_MISMATCH.load(std::sync::atomic::Ordering::Relaxed);
+    if OBSERVE_LAYER.swap(false, std::sync::atomic::Ordering::Relaxed) {
+        out = out.into_iter().map(|d| Divergence::new(format!("through-the-layer:{}", d.class), d.detail)).collect();
+        if mm != 0 {
+            out.push(Divergence::new("layer-delivery-differs-from-the-threads-view", format!("is_enabled() = {}, event delivered = {}, span delivered = {}", mm & 1 == 1, mm & 2 == 2, mm & 4 == 4)));
+        }
+    }
+    out
 }
 
 pub const LOOM_BIN: &str = "/verif/target/loom/release/c20loom";
@@ -482,6 +544,42 @@ pub fn run_c20(args: &Args) -> i32 {
             }
         }
     }
+    // the consumer of the view: `GlobalEnable` stacked under a counting layer in each worker thread;
+    // after every step each thread emits one event and one span (interest cache rebuilt first, see
+    // DESIGN 5b) and both must be delivered exactly when the reference says the thread's view is on
+    let mut layer_runs = 0u64;
+    {
+        OBSERVE_LAYER.store(true, std::sync::atomic::Ordering::Relaxed);
+        for (_, h) in shortest.iter() {
+            for t in 0..2 {
+                for op in OPS {
+                    let mut full = h.clone();
+                    full.push((t, op));
+                    executions += 1;
+                    layer_runs += 1;
+                    steps += full.len() as u64;
+                    LAYER_MISMATCH.store(0, std::sync::atomic::Ordering::Relaxed);
+                    let r = run_history(&full);
+                    let mm = LAYER_MISMATCH.load(std::sync::atomic::Ordering::Relaxed);
+                    let mut ds = vec![];
+                    if let Some(d) = r {
+                        ds.push(Divergence::new(format!("through-the-layer:{}", d.class), d.detail));
+                    }
+                    if mm != 0 {
+                        ds.push(Divergence::new(
+                            "layer-delivery-differs-from-the-threads-view",
+                            format!("[{}]: is_enabled() = {}, event delivered = {}, span delivered = {}", full.iter().map(|(t, o)| format!("T{t}.{o:?}")).collect::<Vec<_>>().join(" "), mm & 1 == 1, mm & 2 == 2, mm & 4 == 4),
+                        ));
+                    }
+                    if !ds.is_empty() {
+                        report.record(&ds, || json!({"kind": "tracing-history", "layer": true, "ops": full.iter().map(|(t, o)| json!([t, format!("{o:?}")])).collect::<Vec<_>>()}));
+                    }
+                }
+            }
+        }
+        OBSERVE_LAYER.store(false, std::sync::atomic::Ordering::Relaxed);
+    }
+    eprintln!("[C20] engine A: {layer_runs} executions observed through the GlobalEnable layer");
     eprintln!("[C20] engine A: {late_runs} executions with late-born threads, {token_runs} two-token executions");
     eprintln!("[C20] engine A: {alt_runs} executions through alternative entry histories");
     eprintln!("[C20] engine A: {} reference states, {executions} executions, {:.1}s", shortest.len(), report.start.elapsed().as_secs_f64());
@@ -512,7 +610,7 @@ pub fn run_c20(args: &Args) -> i32 {
             "traces_validated_against_impl": executions + schedules,
             "evaluations": executions + schedules,
             "distinct_nontrivial": cross_thread,
-            "rule": "non-trivial = engine-A histories in which BOTH threads perform operations (the isolation claim is about cross-thread effects). engine A: BFS over the reference states (global flag, two overrides, <=1 saved token per thread); from each state's shortest history every (thread, op) of the 9 operations (the 8 public ones, local_take both with its token kept and with it discarded) followed by every suffix of length <= 1 (thorough 2), every state is additionally entered through one (thorough: two) alternative history, because the implementation may hold state the reference does not model; each history executed on two fresh OS threads driven in lock-step, both threads' is_enabled() compared with the reference after every step; the shortest histories followed by every (thread, op) are repeated with each worker thread created only when its first operation is due (threads born in every reference state); every maximal sequence of length 5 (thorough 6) over {local_enable, local_disable, take into one of two token slots, restore from either} that uses both slots, with the global setting on and off (two saved overrides alive at once, restored in either order). engine B: loom on the unmodified tracing-enabled source (std shim exporting loom Cell / atomic / thread_local): every pair of programs of <= 2 operations (thorough: also 3-operation programs against <= 1-operation programs) on two loom threads, every interleaving loom's DPOR enumerates within the preemption bound, oracle = some sequential order respecting program order explains all observations and the final state.",
+            "rule": "non-trivial = engine-A histories in which BOTH threads perform operations (the isolation claim is about cross-thread effects). engine A: BFS over the reference states (global flag, two overrides, <=1 saved token per thread); from each state's shortest history every (thread, op) of the 9 operations (the 8 public ones, local_take both with its token kept and with it discarded) followed by every suffix of length <= 1 (thorough 2), every state is additionally entered through one (thorough: two) alternative history, because the implementation may hold state the reference does not model; each history executed on two fresh OS threads driven in lock-step, both threads' is_enabled() compared with the reference after every step; the shortest histories followed by every (thread, op) are repeated with each worker thread created only when its first operation is due (threads born in every reference state); every maximal sequence of length 5 (thorough 6) over {local_enable, local_disable, take into one of two token slots, restore from either} that uses both slots, with the global setting on and off (two saved overrides alive at once, restored in either order); the shortest histories followed by every (thread, op) are also observed through the consumer of the view, `GlobalEnable` stacked under a counting layer as each worker's default subscriber: one event and one span per step (per-callsite interest cache rebuilt first) must be delivered exactly when the thread's view is on. engine B: loom on the unmodified tracing-enabled source (std shim exporting loom Cell / atomic / thread_local): every pair of programs of <= 2 operations (thorough: also 3-operation programs against <= 1-operation programs) on two loom threads, every interleaving loom's DPOR enumerates within the preemption bound, oracle = some sequential order respecting program order explains all observations and the final state.",
             "engine_a": {"reference_states": shortest.len(), "executions": executions, "steps": steps, "suffix_length": suffix_len},
             "engine_b": lv,
             "exhaustive": true,
